@@ -26,6 +26,11 @@ ENTRY = ['lookup', 'lookup1', 'lookupAll', 'names', 'subscriptions',
          'lookup_default', 'lookup1_default']
 
 
+# thorough tier: coverage-guided campaigns on top of the random ones
+ATHERIS = [{'impl': 'py', 'n': 20000, 'name': 'py-atheris'},
+           {'impl': 'c', 'n': 20000, 'name': 'c-atheris'}]
+
+
 def configs(tier, seed):
     n = 1000 if tier == 'quick' else 20000
     return [{'name': impl + '-entry', 'impl': impl, 'mode': 'hyp', 'n': n}
